@@ -72,7 +72,7 @@ def queries(tier, seed):
                     full = hdr_len + data
                     name = 'p%d_%dx%d_m%d_v%d' % (t_, w, h, mx, var)
                     pix = 'gil::rgb8_pixel_t' if t_ in (3, 6) else 'gil::gray8_pixel_t'
-                    UNW[0] = 26 if (t_ <= 3 or var == 2) else 16; USET[0] = [(r'^F_h_read$|^F_h_info_twice$|make_file', 120)] if t_ <= 3 else []   # harness loops constraining ascii data
+                    UNW[0] = 26 if (t_ <= 3 or var == 2) else 16; USET[0] = [(r'^F_h_read$|^F_h_info_twice$|make_file', 120)] if t_ <= 3 else ([(r'read_bin_data|mirror_bits', 300)] if t_ == 4 else [])   # harness loops constraining ascii data; P4 rows go through a 256-entry bit-mirroring table
                     lens = sorted(set([0, 1, 2, 3, hdr_len - 1, hdr_len, hdr_len + 1, full - 1, full, full + 2]))
                     for L in [x for x in lens if x >= 0]:
                         quick = (w, h) == (3, 2) and L in (full, full - 1, hdr_len) and (var == 0 or L == full) and mx in (255, 300)
